@@ -66,32 +66,46 @@ def run_verus(path, extra=None, timeout=900, multiple_errors=20):
 
 
 def scan_assumptions(gen):
-    """Mechanical scan of the generated file for everything that is assumed rather than proved."""
+    """Mechanical scan of the generated file for everything that is assumed rather than proved:
+    assume(..), admit(), external_body items, assume_specification, external type/trait specifications, uninterpreted spec functions."""
     found = []
     pat = re.compile(r"\b(assume\s*\(|admit\s*\(|external_body|assume_specification|external_fn_specification|"
                      r"verifier::external\b|verifier::external_type_specification|verifier::external_trait_specification|"
-                     r"axiom|uninterp\s+spec)")
+                     r"uninterp\s+spec\s+fn)")
+    n = len(gen.lines)
     for k, ln in enumerate(gen.lines):
         code = re.sub(r"//.*", "", ln)
         mt = pat.search(code)
-        if mt and "contract proved by" in ln:
+        if not mt:
+            continue
+        if "contract proved by" in ln:
             continue  # stub whose contract is discharged by another unit / a Kani harness (listed with the item)
-        if mt:
-            # describe by the next fn / item name on this or following lines
-            ctx = ""
-            for j in range(k, min(k + 6, len(gen.lines))):
-                m2 = re.search(r"\b(fn|struct|enum|trait|impl)\s+([A-Za-z_][\w:<>, ]*)", gen.lines[j])
+        kind = mt.group(1).strip(" (")
+        kind = re.sub(r"\s+", " ", kind)
+        ctx = ""
+        if kind == "assume_specification":
+            # the bracketed path, with nested brackets
+            i = code.find("[", mt.end())
+            depth, j = 0, i
+            while j >= 0 and j < len(code):
+                if code[j] == "[":
+                    depth += 1
+                elif code[j] == "]":
+                    depth -= 1
+                    if depth == 0:
+                        break
+                j += 1
+            ctx = code[i + 1:j].strip() if i >= 0 else ""
+        elif kind == "uninterp spec fn":
+            m2 = re.search(r"uninterp\s+spec\s+fn\s+(\w+)", code)
+            ctx = m2.group(1) if m2 else ""
+        else:
+            for j in range(k, min(k + 6, n)):
+                m2 = re.search(r"\b(?:proof\s+|exec\s+|async\s+)*(fn|struct|enum|trait|const)\s+([A-Za-z_]\w*)", re.sub(r"//.*", "", gen.lines[j]))
                 if m2:
-                    ctx = (m2.group(1) + " " + m2.group(2)).strip()
+                    ctx = m2.group(1) + " " + m2.group(2)
                     break
-                m3 = re.search(r"assume_specification[^\[]*\[\s*([^\]]+)\]", gen.lines[j])
-                if m3:
-                    ctx = m3.group(1).strip()
-                    break
-            m3 = re.search(r"assume_specification[^\[]*\[\s*([^\]]+)\]", code)
-            if m3:
-                ctx = m3.group(1).strip()
-            found.append({"kind": mt.group(1).strip(" ("), "item": ctx, "origin": _tag_str(gen.tags[k])})
+        found.append({"kind": kind, "item": ctx, "origin": _tag_str(gen.tags[k])})
     return found
 
 
